@@ -403,10 +403,10 @@ theorem hop_getManifest {σ : Type} (cfg : Cfg) (ht : TableOK cfg.table) (fuel :
       have hd := hdig ho'
       constructor
       · simp [Call.dec, requestsMade, gate, descriptorFromResponse, mkResp, hget_cons_ne, ho',
-          parseContentLength_itoa h0 hmax, hd, isDigest_ne_nil hd, hn]
+          parseContentLength_itoa h0 hmax, hd, isDigest_ne_nil hd, isDigest_ne_nil hD, hn]
       · simp [Call.dec, clientDecode, clientRead, gate, descriptorFromResponse, mkResp, hget_cons_ne, ho',
-          parseContentLength_itoa h0 hmax, hd, isDigest_ne_nil hd, hn, newBlobReader, isDigest_hashable hd,
-          liftCRes, expectOk, orOctetStream]
+          parseContentLength_itoa h0 hmax, hd, isDigest_ne_nil hd, isDigest_ne_nil hD, hn, newBlobReader,
+          isDigest_hashable hD, liftCRes, expectOk, orOctetStream]
   | _ => exact absurd hb (by simp [Carriable])
 
 theorem hop_getTag {σ : Type} (cfg : Cfg) (ht : TableOK cfg.table) (fuel : Nat) (B : SBackend σ)
@@ -457,9 +457,9 @@ theorem hop_resolveBlob {σ : Type} (cfg : Cfg) (ht : TableOK cfg.table) (fuel :
   cases b with
   | desc d =>
     obtain ⟨⟨h0, hmax⟩, hd⟩ := hb
-    obtain ⟨resp, hs, hdec⟩ := C03R.blobHead_round_trip cfg.H resolveLocal cfg.o
+    obtain ⟨resp, hs, hdec⟩ := C03R.blobHead_reports_requested cfg.H resolveLocal cfg.o
       (srvReqOf cfg { kind := .blobHead, repo := repo, digest := dg } (mkReq { kind := .blobHead, repo := repo, digest := dg }))
-      d dg rfl ⟨h0, hmax, hd⟩
+      d dg rfl ⟨h0, hmax, hd⟩ (isDigest_ne_nil hD)
     rw [respOf_ok cfg _ _ _ hs, finish_single_ok, toResp_ok]
     refine ⟨by simp [Call.dec, requestsMade], ?_⟩
     simp only [Call.dec]
@@ -483,12 +483,11 @@ theorem hop_resolveManifest {σ : Type} (cfg : Cfg) (ht : TableOK cfg.table) (fu
   cases b with
   | desc d =>
     obtain ⟨⟨h0, hmax⟩, hd⟩ := hb
-    obtain ⟨resp, hs, hdec⟩ := C03R.manifestHead_round_trip cfg.H resolveLocal cfg.o
+    obtain ⟨resp, hs, hdec⟩ := C03R.manifestHead_reports_requested cfg.H resolveLocal cfg.o
       (srvReqOf cfg { kind := .manifestHead, repo := repo, digest := dg } (mkReq { kind := .manifestHead, repo := repo, digest := dg }))
-      d rfl (Or.inr hD) ⟨h0, hmax, hd⟩
+      d rfl rfl hD ⟨h0, hmax, hd⟩
     have hdec' : clientDecode cfg.H resolveLocal (.resolveManifest dg) [resp] =
-        .desc { mediaType := orOctetStream d.mediaType,
-                digest := if cfg.o.omitDigest = true then dg else d.digest, size := d.size } := by
+        .desc { mediaType := orOctetStream d.mediaType, digest := dg, size := d.size } := by
       simpa [srvReqOf, orOctet_eq] using hdec
     rw [respOf_ok cfg _ _ _ hs, finish_single_ok, toResp_ok]
     refine ⟨by simp [Call.dec, requestsMade], ?_⟩
@@ -516,7 +515,7 @@ theorem hop_resolveTag {σ : Type} (cfg : Cfg) (ht : TableOK cfg.table) (fuel : 
     obtain ⟨⟨h0, hmax⟩, hd⟩ := hb
     obtain ⟨resp, hs, hdec⟩ := C03R.manifestHead_round_trip cfg.H resolveLocal cfg.o
       (srvReqOf cfg { kind := .manifestHead, repo := repo, tag := tag } (mkReq { kind := .manifestHead, repo := repo, tag := tag }))
-      d rfl (Or.inl htne) ⟨h0, hmax, hd⟩
+      d rfl (Or.inl htne) ⟨h0, hmax, hd⟩ (fun h => absurd h htne)
     have hdec' : clientDecode cfg.H resolveLocal .resolveTag [resp] =
         .desc { mediaType := orOctetStream d.mediaType, digest := d.digest, size := d.size } := by
       simpa [srvReqOf, orOctet_eq, htne] using hdec
@@ -592,9 +591,9 @@ theorem hop_mountBlob {σ : Type} (cfg : Cfg) (ht : TableOK cfg.table) (fuel : N
   intro b hb
   cases b with
   | desc d =>
-    obtain ⟨resp, hs, _, hdec⟩ := C03R.mount_round_trip cfg.H resolveLocal cfg.o
+    obtain ⟨resp, hs, hdec⟩ := C03R.mount_reports_requested cfg.H resolveLocal cfg.o
       (srvReqOf cfg { kind := .blobMount, repo := toRepo, digest := dg, fromRepo := fromRepo }
-        (mkReq { kind := .blobMount, repo := toRepo, digest := dg, fromRepo := fromRepo })) d dg rfl hb
+        (mkReq { kind := .blobMount, repo := toRepo, digest := dg, fromRepo := fromRepo })) d dg rfl hb (isDigest_ne_nil hD)
     rw [respOf_ok cfg _ _ _ hs, finish_single_ok, toResp_ok]
     refine ⟨by simp [Call.dec, requestsMade], ?_⟩
     simp only [Call.dec]
@@ -1832,5 +1831,41 @@ theorem clientCall_serverHandle (cfg : Cfg) (fuel : Nat) (B : Backend) (log : Li
   exact clientCallS_sim cfg (fun (_ : Unit) rq => ((), (serverHandle cfg B rq).1))
     (serveS cfg (fun (_ : Unit) c => ((), B c))) (fun _ _ => True)
     (fun _ s₂ rq _ => ⟨((serveS_stateless cfg B s₂.2 rq).1).symm, trivial⟩) fuel () ((), log) trivial c
+
+/-! ### F31: a call by digest reports the digest asked for, over ANY transport -/
+
+theorem liftCRes_desc? (cfg : Cfg) (xs : List (HttpRequest × HttpResponse)) (r : CRes) :
+    (liftCRes cfg xs r).desc? = r.desc? := by
+  cases r with
+  | err e => cases e <;> rfl
+  | _ => rfl
+
+theorem dec_requested (cfg : Cfg) (c : Call) {dg : Bytes} (h : c.requested = some dg) :
+    (c.dec cfg).requested = some dg := by
+  cases c <;> simp only [Call.requested] at h <;> first | exact h | cases h
+
+theorem finish_requested (cfg : Cfg) (c : Call) {dg : Bytes} (hc : c.requested = some dg) (hne : dg ≠ [])
+    (xs : List (HttpRequest × HttpResponse)) {d : Desc} (h : (finish cfg c xs).desc? = some d) : d.digest = dg := by
+  unfold finish at h
+  rw [liftCRes_desc?] at h
+  exact clientDecode_requested cfg.H resolveLocal _ (dec_requested cfg c hc) hne _ h
+
+theorem clientCallS_requested {σ : Type} (cfg : Cfg) (fuel : Nat) (send : σ → HttpRequest → σ × HttpResponse) (s : σ)
+    (c : Call) {dg : Bytes} (hc : c.requested = some dg) (hne : dg ≠ []) {d : Desc}
+    (h : (clientCallS cfg fuel send s c).2.desc? = some d) : d.digest = dg := by
+  have hl : c.isListing = false := by cases c <;> first | rfl | cases hc
+  have hr : c.refuse2 = none := by cases c <;> first | rfl | cases hc
+  have hnr : c.noRequest cfg = finish cfg c [] := by cases c <;> first | rfl | cases hc
+  rw [clientCallS_simple cfg fuel send s c hl] at h
+  unfold simpleCallS at h
+  split at h
+  · rw [hnr] at h; exact finish_requested cfg c hc hne _ h
+  · split at h
+    · rw [hr] at h
+      split at h
+      · rename_i hh; cases hh
+      · exact finish_requested cfg c hc hne _ h
+      · exact finish_requested cfg c hc hne _ h
+    · exact finish_requested cfg c hc hne _ h
 
 end OciModel.Wire
